@@ -80,11 +80,50 @@ def run(ctx):
             flush(ctx, allrecs, meta)
             allrecs, meta = [], []
     flush(ctx, allrecs, meta)
+    merge_tool(ctx, b)
     cov = {"states": ctx.cov.get("states", 0), "transitions": ctx.cov.get("transitions", 0),
            "traces_validated_against_impl": ctx.cov.get("traces_validated_against_impl", 0),
            "evaluations": ctx.cov.get("families", 0), "distinct_nontrivial": ctx.cov.get("families_with_shared_keys", 0), "exhaustive": False}
     return core.finish(ctx, "model_checking", cov, rule="families of 0..8 sources (identical, disjoint, interleaved, with empty tables, empty key) x 4 modes x source variants; "
                        "non-trivial = families in which some key occurs in more than one source entry")
+
+
+def merge_tool(ctx, b):
+    """the mtbl_merge tool with a bag-union DSO built by the harness: its output file read back and judged"""
+    import subprocess
+    tools = build.build("tools")
+    dso = os.path.join(tools["dir"], "merge_bag_dso.so")
+    if not os.path.exists(dso):
+        build._run(["gcc", "-shared", "-fPIC", "-O1", os.path.join(build.HARNESS, "merge_bag_dso.c"), "-o", dso])
+    rng = ctx.rng
+    recs = []
+    for n in range(6 if ctx.quick() else 60):
+        wd = ctx.sub("tool%d" % n)
+        fam = [src for src in M.rand_family(rng, nsrc=rng.choice([1, 2, 3, 5]), nkeys=rng.choice([6, 40]), tokbase=1) if True]
+        L = ["scratch " + wd]
+        paths = []
+        for s_, src in enumerate(fam):
+            pth = os.path.join(wd, "in%d.mtbl" % s_)
+            if os.path.exists(pth):
+                os.unlink(pth)
+            paths.append(pth)
+            L.append("w_init %d %s %s default 1024 2 -1 0" % (s_, pth, rng.choice(gen.COMPS)))
+            for k, toks in src:
+                L.append("w_add %d %s T%s" % (s_, shapes.hexs(k), ",".join(map(str, sorted(toks)))))
+            L.append("w_close %d" % s_)
+        r1, rc, err = M.run_script(ctx, b, wd, L, "w")
+        outp = os.path.join(wd, "out.mtbl")
+        if os.path.exists(outp):
+            os.unlink(outp)
+        threads = rng.choice([0, 0, 2])
+        cmd = [tools["merge"], "-c", rng.choice(gen.COMPS), "-b", str(rng.choice([1024, 8192]))] + (["-t", str(threads)] if threads else []) + paths + [outp]
+        p = subprocess.run(cmd, stdout=subprocess.PIPE, stderr=subprocess.PIPE, text=True, timeout=120,
+                           env=dict(os.environ, MTBL_MERGE_DSO=dso, MTBL_MERGE_FUNC_PREFIX="vsbag", LC_ALL="C"))
+        r2, rc2, err2 = M.run_script(ctx, b, wd, ["scratch " + wd, "r_init 0 %s 1 0" % outp, "it_iter 1 r:0", "it_drain 1", "it_destroy 1", "r_destroy 0"], "r")
+        recs += r1 + [{"e": "MergeTool", "inputs": paths, "out": outp, "rc": p.returncode, "stderr": p.stderr[-200:]}] + [e for e in r2 if e["e"] != "Reset"]
+        ctx.add("merge_tool_runs", 1)
+    for ex, line in core.validate_batch(ctx, recs, "tool"):
+        core.report(ctx, "mtbl_merge output not explained by the fold of its inputs at trace line %d: %s" % (line, json.dumps(ex[line - 1])[:300]), {"kind": "trace", "trace": ex, "line": line})
 
 
 _batch = [0]
